@@ -1,6 +1,10 @@
 package keys
 
 import (
+	"crypto/mlkem"
+	"crypto/sha3"
+	"fmt"
+
 	"pgregory.net/rapid"
 
 	"github.com/tink-crypto/tink-go/v2/aead/aesctrhmac"
@@ -91,12 +95,56 @@ func (s hpkeSpec) build(variant string, id uint32) (*Info, error) {
 			return nil, err
 		}
 		f["public_key"] = pub
-	default: // X-Wing / ML-KEM: the only route from the seed to the public key is the library itself
-		f["public_key"] = clone(i.Public.(*hpke.PublicKey).PublicKeyBytes())
+	default: // X-Wing / ML-KEM: derived with the standard library, never read from the Tink object
+		pub, err := kemPublic(s.kem.name, s.priv)
+		if err != nil {
+			return nil, err
+		}
+		f["public_key"] = pub
 	}
 	i.Secrets = secrets(s.priv)
 	f["kem"], f["kdf"], f["aead"], f["key_value"] = s.kem.name, s.kdf, s.aead, clone(s.priv)
 	return i.done(s.build), nil
+}
+
+// kemPublic derives the public key of an ML-KEM / X-Wing private key with crypto/mlkem, crypto/sha3
+// and crypto/ecdh (material.go: x25519Public):
+//
+//   - ML-KEM-768 / -1024: the private key is the 64-byte seed d || z (FIPS 203), the public key is the
+//     encapsulation key;
+//   - X-Wing (draft-connolly-cfrg-xwing-kem): the 32-byte private key is expanded with SHAKE-256 to
+//     96 bytes = ML-KEM-768 seed (64) || X25519 private key (32); the public key is
+//     ML-KEM-768 encapsulation key (1184) || X25519 public key (32).
+func kemPublic(kem string, priv []byte) ([]byte, error) {
+	switch kem {
+	case "ML_KEM768":
+		dk, err := mlkem.NewDecapsulationKey768(priv)
+		if err != nil {
+			return nil, err
+		}
+		return dk.EncapsulationKey().Bytes(), nil
+	case "ML_KEM1024":
+		dk, err := mlkem.NewDecapsulationKey1024(priv)
+		if err != nil {
+			return nil, err
+		}
+		return dk.EncapsulationKey().Bytes(), nil
+	case "X_WING":
+		if len(priv) != 32 {
+			return nil, fmt.Errorf("X-Wing private key of %d bytes", len(priv))
+		}
+		expanded := sha3.SumSHAKE256(priv, 96)
+		dk, err := mlkem.NewDecapsulationKey768(expanded[:64])
+		if err != nil {
+			return nil, err
+		}
+		pkX, err := x25519Public(expanded[64:96])
+		if err != nil {
+			return nil, err
+		}
+		return append(dk.EncapsulationKey().Bytes(), pkX...), nil
+	}
+	return nil, fmt.Errorf("keys: no public-key derivation for KEM %s", kem)
 }
 
 // ---------------------------------------------------------------------------------------------
